@@ -29,7 +29,13 @@ Oracle (independent of processor.py):
              model daemon failed/died/was signalled, or get_keys returning keys of another request;
   unknown    an unknown command (Python->daemon) must surface as an error and the processor must be
              dead afterwards;
+  misfed     the daemon, still waiting inside an execution for the reply to an inherit/bashrc/helper request of
+             an *earlier* operation, takes bytes a later operation wrote (e.g. the pool's `alive` probe) as that
+             reply and the later operation consumes the outcome (someone else's error surfaces in it);
   timers     no SIGALRM timer may stay armed after an operation returns.
+Payload class `nonascii`: ebuild path, phase env value and metadata path whose byte length differs from the
+character count (size-prefixed messages count bytes, as `read -N` in the daemon's C locale does; confirmed by
+the conformance run with non-ASCII `set_metadata_path` / `start_receiving_env bytes`).
 Conformance: message traces recorded from real daemon sessions (real bash, real ebuilds/eclasses
 realising the same event scripts, real signals) are replayed into the model, which must produce the
 same token sequence (`traces_validated_against_impl`).  Literal cross-check: every command literal
@@ -39,7 +45,10 @@ Dropped from DESIGN.md: the exhaustive part (thorough tier) enumerates 1 operati
 x <=2 events, 3 operations x <=1 event from a reduced alphabet, both schedulings (78k programs), not all
 3x3; signals are only delivered to the daemon's main pid; helper IPC uses two stub IpcCommand subclasses
 (protocol framing is real, command semantics are not); real phase *execution* (start_processing) is not
-part of the conformance traces (phase loop, metadata/env generation, die, signals, EOF are).
+part of the conformance traces (phase loop, metadata/env generation, die, signals, EOF are; the real
+__source_bashrcs - incl. a bashrc whose last command fails - and __internal_inherit are run through
+harness-written env chunks, their conversations sent pipelined so that a missing ack shows as a different
+line instead of as silence).
 Side observation (not this property): EbuildProcessor.is_alive stores pid=False and later calls
 os.waitpid(False, WNOHANG), i.e. waitpid(0): "any child in my process group".
 """
@@ -1752,11 +1761,14 @@ def replay(ctx, case):
     if case.get("kind") == "literal":
         check_literals(ctx)
         return
+    if case.get("kind") == "conformance":
+        conformance(ctx, case.get("which", 0))  # spawns a real daemon and repeats that program
+        return
     run_case(ctx, case)
 
 
 def shrink_case(ctx, bucket, case):
-    if case.get("kind") == "literal":
+    if case.get("kind") in ("literal", "conformance"):
         return None
 
     def pred(c):
